@@ -175,8 +175,8 @@ fn build_out(h: &Hdr, v: &Scalar, S: &EdwardsPoint, pos: u32, o: &OutD) -> Built
             } else { None };
             let comm = if h.ringct() { if r.corrupt == 'c' { flip0(C) } else { C } } else { h.fill };
             let recognisable = r.shift == 0 && r.tag != 'w' && idx.map(|i| h.in_range(i)).unwrap_or(false);
-            Built { amount: if h.ringct() { 0 } else { r.amount }, key, tag, add_key, ecdh, comm,
-                expect: if recognisable { idx.map(|i| (i, r.own, y, C)) } else { None }, corrupt: h.ringct() && r.corrupt != '-' }
+            Built { amount: if h.ringct() { if r.corrupt == 'a' { 77 + pos as u64 } else { 0 } } else { r.amount }, key, tag, add_key, ecdh, comm,
+                expect: if recognisable { idx.map(|i| (i, r.own, y, C)) } else { None }, corrupt: h.ringct() && r.corrupt != '-' && r.corrupt != 'a' }
         }
     }
 }
@@ -251,15 +251,15 @@ fn parse_scenario(t: &[&str]) -> Option<(Hdr, Vec<OutD>)> {
     let mut outs = vec![]; for s in &t[11..] { outs.extend(parse_out(s)?); }
     Some((h, outs))
 }
-struct Scen { line_hash: String, prefix: TransactionPrefix, base: Option<RctSigBase>, vp: ViewPair, r: [u32; 4], expected: String }
-fn scenario(t: &[&str]) -> Option<Scen> {
+pub struct Scen { pub line_hash: String, pub prefix: TransactionPrefix, pub base: Option<RctSigBase>, pub vp: ViewPair, pub r: [u32; 4], pub expected: String, pub spend_secret: Scalar }
+pub fn scenario(t: &[&str]) -> Option<Scen> {
     let (h, outs) = parse_scenario(t)?;
     let bt = build(&h, &outs);
     let (prefix, base) = to_monero(&h, &bt);
     let mut ser = serialize(&prefix); if let Some(b) = &base { ser.extend(serialize(b)); }
     let v = sc(&h.seed, 'v', 0); let S = sc(&h.seed, 's', 0) * G;
     let vp = ViewPair { view: PrivateKey::from_slice(v.as_bytes()).ok()?, spend: PublicKey::from_slice(&enc(&S)).ok()? };
-    Some(Scen { line_hash: hex(&keccak(&ser)[..8]), expected: expected(&h, &bt, &outs), prefix, base, vp, r: h.r })
+    Some(Scen { line_hash: hex(&keccak(&ser)[..8]), expected: expected(&h, &bt, &outs), prefix, base, vp, r: h.r, spend_secret: sc(&h.seed, 's', 0) })
 }
 
 pub fn exec(t: &[&str]) -> Option<String> {
@@ -290,6 +290,19 @@ pub fn exec(t: &[&str]) -> Option<String> {
             None => "bad-input".into(),
             Some(s) => format!("{} {}", s.line_hash, scan3(&s.prefix, &s.base, &s.vp, s.r)),
         },
+        // C09 through the scanner: every output reported as owned -> `OwnedTxOut::recover_key` with the wallet's spend secret
+        ["c09_scenario", rest @ ..] => match scenario(rest) {
+            None => "bad-input".into(),
+            Some(s) => {
+                let kp = monero::KeyPair { view: s.vp.view, spend: PrivateKey::from_slice(s.spend_secret.as_bytes()).unwrap() };
+                let tx = Transaction { prefix: s.prefix.clone(), signatures: vec![], rct_signatures: RctSig { sig: s.base.clone(), p: None } };
+                let r = match tx.check_outputs(&s.vp, s.r[0]..s.r[1], s.r[2]..s.r[3]) {
+                    Err(e) => format!("err {}", err_name(e)),
+                    Ok(v) => { let mut t = format!("ok {}", v.len()); for o in &v { t += &format!(" {}:{}", o.index(), hex(o.recover_key(&kp).as_bytes())); } t }
+                };
+                format!("{} {}", s.line_hash, r)
+            }
+        },
         _ => return None,
     })
 }
@@ -313,11 +326,11 @@ fn gen_real(rng: &mut Rng, ringct: bool, amount: Option<u64>, main: &Option<(u64
     let tag = *rng.pick(&['t', 't', 't', 't', 't', 'n', 'n', 'n', 'w']);
     let shift = if rng.chance(1, 10) { 1 } else { 0 };
     let amount = amount.unwrap_or_else(|| rng.u64_boundary());
-    let cor = if ringct && rng.chance(1, 14) { format!(".{}", rng.pick(&['e', 'k', 'c'])) } else { String::new() };
+    let cor = if ringct && rng.chance(1, 8) { format!(".{}", rng.pick(&['e', 'k', 'c', 'a', 'a'])) } else { String::new() };
     format!("{}.{}.{}.{}.{}{}", dest, der, tag, shift, amount, cor)
 }
 /// one scenario line; `cross` = 0 (small), 128 or 16384 (real outputs placed around that position)
-fn gen_scenario(rng: &mut Rng, cross: u64, rct_pick: Option<(u64, &str)>, amount: Option<u64>, with_add: bool) -> String {
+pub fn gen_scenario(rng: &mut Rng, cross: u64, rct_pick: Option<(u64, &str)>, amount: Option<u64>, with_add: bool) -> String {
     let seed = hex(&rng.bytes(8));
     // `sure`: generous ranges, a transaction key and full additional keys, and one output that must be reported
     let sure = cross > 0 || rng.chance(1, 3);
@@ -508,6 +521,12 @@ pub fn run_c08(o: &mut Out, tier: &str, seed: u64) {
             let am = if rng.chance(1, 3) { Some(0) } else { Some(a) };
             let l = gen_scenario(&mut rng, 0, Some((*ver, *rct)), am, true);
             run_scenario(o, &mut rng, l, &format!("c08:v{}:rct{}", ver, rct));
+        }
+        // a RingCT transaction whose owned outputs ALSO carry a non-zero clear amount: the reported amount must be the opened one
+        if *rct != "n" && *rct != "0" {
+            let am = *rng.pick(&amounts); let l = gen_scenario(&mut rng, 0, Some((*ver, *rct)), Some(am), true);
+            let forced: Vec<String> = l.split(' ').enumerate().map(|(i, t)| if i > 11 && t.split('.').count() == 5 && (t.starts_with('P') || t.starts_with('S')) { format!("{}.a", t) } else { t.to_string() }).collect();
+            run_scenario(o, &mut rng, forced.join(" "), &format!("c08:clear-amount-in-ringct:rct{}", rct));
         }
     }
     o.notes.push("c08_open roundtrips: (amount, mask, secret) × {legacy, compact}, amounts 0, 2^k-1, 2^k, 2^k+1, 2^64-1; corrupt: one flipped bit in ecdh / commitment, non-canonical commitment encodings, commitment to another amount".into());
